@@ -234,6 +234,15 @@ func (c *Ctx) checkEscapeReaders(r *Report, rule string) {
 			good, why := false, "no peekChar() of the same lexer dominates this readChar(): the byte is consumed unseen"
 			if peek != nil {
 				good = true
+				// the byte that was looked at is the one consumed: nothing else is consumed in between
+				for _, other := range sites {
+					if other.in != call && sameValue(other.recv, site.recv) && between(peek, other.in, call) {
+						good = false
+						why = "another byte is consumed (" + c.Pos(other.in.Pos()) + ") between the peekChar() and this consumption: the byte consumed here was never looked at"
+					}
+				}
+			}
+			if peek != nil && good {
 				for _, b := range []int64{0, '"', '`'} {
 					if c.reachableWith(fn, peek, b, call.Block()) {
 						good = false
